@@ -831,6 +831,12 @@ func (r *run) verdict(vs *hx.Vs, ierr error, _ string) {
 
 const sigNoHistory = "migration-without-rotated-keys:v1v2"
 
+// sigSilentNoHistory: the whole keystore was migrated (as `acra-keys migrate` does), the migration reported
+// success, and the new keystore lacks rotated keys the old one offers. (The open finding above is loud in
+// that situation: "Incomplete key import"; silence is only known for the harness's own selection by id,
+// which leaves the history files out.)
+const sigSilentNoHistory = "migration-reports-success-without-rotated-keys:v1v2"
+
 // checkMigration: v1 -> v2 through EnumerateExportedKeys + ImportKeyFileV1.
 func (r *run) checkMigration(vs *hx.Vs) {
 	c := r.c
@@ -879,7 +885,11 @@ func (r *run) checkMigration(vs *hx.Vs) {
 				if s == slotAll && now[s].ok() && len(now[s].Vals) > 0 && len(exp.Vals) > 0 && now[s].Vals[0] == exp.Vals[0] && len(now[s].Vals) < len(exp.Vals) {
 					if !lostHistory {
 						lostHistory = true
-						vs.Add(sigNoHistory, "v1v2: %s/%s after migration: %s, the source offers %s: data protected with the older keys cannot be read from the new keystore", k, s, now[s], exp)
+						sig := sigNoHistory
+						if c.Bulk && err == nil {
+							sig = sigSilentNoHistory
+						}
+						vs.Add(sig, "v1v2 bulk=%v: %s/%s after migration: %s, the source offers %s: data protected with the older keys cannot be read from the new keystore", c.Bulk, k, s, now[s], exp)
 					}
 					continue
 				}
@@ -887,7 +897,11 @@ func (r *run) checkMigration(vs *hx.Vs) {
 					// current key destroyed, rotated keys survive in the source: none of them is carried over
 					if !lostHistory {
 						lostHistory = true
-						vs.Add(sigNoHistory, "v1v2: %s/%s after migration: %s, the source offers %s", k, s, now[s], exp)
+						sig := sigNoHistory
+						if c.Bulk && err == nil {
+							sig = sigSilentNoHistory
+						}
+						vs.Add(sig, "v1v2 bulk=%v: %s/%s after migration: %s, the source offers %s", c.Bulk, k, s, now[s], exp)
 					}
 					continue
 				}
